@@ -2949,8 +2949,8 @@ impl Machine {
             _ => {
                 match Number::try_from((a2, &self.machine_st.arena.f64_tbl)) {
                     Ok(Number::Integer(n)) => {
-                        let n: u32 = (&*n).try_into().unwrap();
-                        let n = std::char::from_u32(n);
+                        // a bignum is never a character code
+                        let n = u32::try_from(&*n).ok().and_then(std::char::from_u32);
                         let c = match n {
                             Some(c) => c,
                             _ => {
